@@ -506,6 +506,14 @@ impl<'t, 'c> Gen<'t, 'c> {
         v
     }
 
+    /// A block that is empty now and then (an IF arm, ELSE, CASE, CASE ELSE or FOR body without statements).
+    fn block_or_empty(&mut self, depth: usize, max: usize) -> Vec<Stmt> {
+        if self.t.chance(1, 10) {
+            return vec![];
+        }
+        self.block(depth, max)
+    }
+
     /// Appends one statement (possibly with a preparatory statement) to `out`.
     pub fn stmt_into(&mut self, depth: usize, out: &mut Vec<Stmt>) {
         if self.stmts_left > 0 {
@@ -564,10 +572,10 @@ impl<'t, 'c> Gen<'t, 'c> {
                 let mut arms = vec![];
                 for _ in 0..arms_n {
                     let c = self.cond(1);
-                    let b = self.block(depth + 1, 3);
+                    let b = self.block_or_empty(depth + 1, 3);
                     arms.push((c, b));
                 }
-                let else_ = if self.t.chance(1, 2) { Some(self.block(depth + 1, 2)) } else { None };
+                let else_ = if self.t.chance(1, 2) { Some(self.block_or_empty(depth + 1, 2)) } else { None };
                 out.push(Stmt::If { arms, else_ });
             }
             13 | 14 => out.push(self.select_stmt(depth)),
@@ -638,10 +646,10 @@ impl<'t, 'c> Gen<'t, 'c> {
                 };
                 items.push(it);
             }
-            let body = self.block(depth + 1, 2);
+            let body = self.block_or_empty(depth + 1, 2);
             cases.push((items, body));
         }
-        let else_ = if self.t.chance(1, 2) { Some(self.block(depth + 1, 2)) } else { None };
+        let else_ = if self.t.chance(1, 2) { Some(self.block_or_empty(depth + 1, 2)) } else { None };
         Stmt::Select { subject, cases, else_ }
     }
 
@@ -679,7 +687,7 @@ impl<'t, 'c> Gen<'t, 'c> {
         // occasionally bounds are variables / expressions
         let to = if self.t.chance(1, 5) { Expr::Bin(BinOp::Add, Box::new(self.paren_if_binary(to)), Box::new(lit_i(0))) } else { to };
         self.depth_in_loops += 1;
-        let body = self.block(depth + 1, 3);
+        let body = self.block_or_empty(depth + 1, 3);
         self.depth_in_loops -= 1;
         let next_names = self.t.chance(1, 3);
         Stmt::For { var, from, to, step, body, next_names }
